@@ -224,3 +224,58 @@ Proof.
     assert (HaS : T - P <= S) by (apply ceil_div_one; [assumption | rewrite <- Hcw; lia]).
     rewrite Hcw1. fold (base_size s). fold S. lia.
 Qed.
+
+(** * Witnesses: what the gate lets through although the core does not enforce it *)
+Definition plain_factor (n : nat) : sfactor :=
+  {| sf_derived := false; sf_window := WWithin; sf_args := []; sf_weights := repeat 1 n |}.
+
+(** CrossBlock([f, g], [f, g], [c]) with f, g of two levels and one user constraint of kind k *)
+Definition witness_with (k : ckind) : summary :=
+  {| sm_is_block := true; sm_ncrossings := 1; sm_constraints := [KCross; KConsistency; k];
+     sm_crossing_weight := 1; sm_trials := 4; sm_design := [plain_factor 2; plain_factor 2]; sm_crossing := [0; 1] |}.
+
+Theorem gate_refuted : exists s p,
+  gate s = Accept p /\ In KExactlyKInARow (sm_constraints s) /\ user_kind KExactlyKInARow = true /\
+  ~ In KExactlyKInARow (p_handed p) /\ p_length p = sm_trials s /\ ignored_by_gate s KExactlyKInARow = true.
+Proof.
+  exists (witness_with KExactlyKInARow). eexists. split; [vm_compute; reflexivity|].
+  split; [cbn; auto|]. split; [reflexivity|]. split; [intros []|]. split; [reflexivity|]. vm_compute. reflexivity.
+Qed.
+
+Theorem gate_refuted_sequential : exists s, ignored_by_gate s KSequential = true.
+Proof. exists (witness_with KSequential). vm_compute. reflexivity. Qed.
+
+Theorem gate_refuted_latin : exists s, ignored_by_gate s KLatin = true.
+Proof. exists (witness_with KLatin). vm_compute. reflexivity. Qed.
+
+(** the refused kinds are never ignored *)
+Theorem refused_never_ignored : forall s k, refused_kind k = true -> ignored_by_gate s k = false.
+Proof.
+  intros s k Hr. unfold ignored_by_gate. destruct (gate s) as [r|c|p] eqn:E; try reflexivity.
+  destruct (gate_accept_facts s p E) as [_ [Hno _]].
+  destruct (existsb (ckind_eqb k) (sm_constraints s)) eqn:Ee; [|reflexivity].
+  apply existsb_exists in Ee. destruct Ee as [k' [Hin Hk]].
+  assert (k = k') by (destruct k, k'; cbn in Hk; try discriminate; reflexivity). subst k'.
+  rewrite (Hno k Hin) in Hr. discriminate.
+Qed.
+
+(** Repeat(CrossBlock([f],[f]), [MinimumTrials(4)]): trials 4, crossing weight 1 (RepeatMode.REPEAT
+    does not re-weight), M = 2: two-trial sequences *)
+Definition witness_repeat : summary :=
+  {| sm_is_block := true; sm_ncrossings := 1; sm_constraints := [KCross; KConsistency; KMinimumTrials];
+     sm_crossing_weight := 1; sm_trials := 4; sm_design := [plain_factor 2]; sm_crossing := [0] |}.
+
+Theorem sm_length_repeat_refuted : exists s p, gate s = Accept p /\ p_length p = 2 /\ sm_trials s = 4.
+Proof. exists witness_repeat. eexists. split; [vm_compute; reflexivity|]. split; reflexivity. Qed.
+
+(** CrossBlock([f, g], [g], [MinimumTrials(6)]): the duplication that implements the crossing
+    weight 3 is applied to f, the first non-derived factor of the design, which is not crossed *)
+Definition witness_uncrossed : summary :=
+  {| sm_is_block := true; sm_ncrossings := 1; sm_constraints := [KCross; KConsistency; KMinimumTrials];
+     sm_crossing_weight := 3; sm_trials := 6; sm_design := [plain_factor 2; plain_factor 2]; sm_crossing := [1] |}.
+
+Theorem sm_length_uncrossed_refuted : exists s p,
+  gate s = Accept p /\ p_length p = 2 /\ sm_trials s = 6 /\
+  0 < base_size s /\ base_size s + preamble s <= sm_trials s /\
+  sm_crossing_weight s = (sm_trials s - preamble s + base_size s - 1) / base_size s.
+Proof. exists witness_uncrossed. eexists. split; [vm_compute; reflexivity|]. vm_compute. repeat split; auto. Qed.
